@@ -492,3 +492,10 @@ ASSUMPTIONS = ["library contract of sorted(): stable permutation ordered by the 
 
 # deductive contracts for the directory-argument functions (the "@bounded" stand-ins above stay as native cross-checks)
 from . import c10_dirs  # noqa: E402,F401
+
+
+# effect obligations (AST): reading twice in one process gives the same answer for the same files - no argument-keyed cache
+# (e.g. a memoised directory listing), no module-level state in the reader modules - see specs/common.py
+from .common import no_hidden_state_check as _no_hidden_state_check  # noqa: E402
+EXTRA_CHECKS = list(globals().get("EXTRA_CHECKS", [])) + [_no_hidden_state_check(
+    ["pydsdl._namespace", "pydsdl._namespace_reader", "pydsdl._dsdl", "pydsdl._dsdl_definition"], "the namespace reader")]
